@@ -1,5 +1,6 @@
 import Rv.Props.C07
 import Rv.Props.C09
+import Rv.Props.SrcRange
 #print axioms Rv.Props.C07.parse_total
 #print axioms Rv.Props.C07.parse_in_int64
 #print axioms Rv.Props.C07.slice_inside
@@ -21,3 +22,6 @@ import Rv.Props.C09
 #print axioms Rv.Props.C09.never_bad_gateway_env
 #print axioms Rv.Props.C09.vanished_entry_falls_back_env
 #print axioms Rv.Props.C09.vanished_entry_second_request_unconditional
+#print axioms Rv.Props.SrcRange.validateRange_eq
+#print axioms Rv.Props.SrcRange.sliceSize_eq
+#print axioms Rv.Props.SrcRange.sliceSize_total
